@@ -25,19 +25,21 @@ import (
 //	mut     — fixture Fixture with the 8-byte field at Off overwritten by Val
 //	fixture — fixture Fixture unchanged
 //	raw     — Raw bytes as they are (fuzz crashers, hand-made probes)
+//	index   — a valid index with a header mutation and a table mutation combined (Idx)
 //	enum    — a batch of enumeration cases by index (crash journal of TestEnum)
 type Case struct {
-	Target  string `json:"target"`
-	Form    string `json:"form"`
-	Elems   []Elem `json:"elems,omitempty"`
-	Fixture string `json:"fixture,omitempty"`
-	Cut     int    `json:"cut,omitempty"`
-	Off     int    `json:"off,omitempty"`
-	Val     uint64 `json:"val,omitempty"`
-	Raw     []byte `json:"raw,omitempty"`
-	Enum    []int  `json:"enum,omitempty"`  // form "enum": indexes into the enumeration (batch journal of TestEnum)
-	Src     string `json:"src,omitempty"`   // source kind handed to the entry point (default guard)
-	Drain   string `json:"drain,omitempty"` // catar decoders: what the caller does with a payload reader (none/part/all)
+	Target  string   `json:"target"`
+	Form    string   `json:"form"`
+	Elems   []Elem   `json:"elems,omitempty"`
+	Fixture string   `json:"fixture,omitempty"`
+	Cut     int      `json:"cut,omitempty"`
+	Off     int      `json:"off,omitempty"`
+	Val     uint64   `json:"val,omitempty"`
+	Raw     []byte   `json:"raw,omitempty"`
+	Idx     *IdxCase `json:"idx,omitempty"`   // form "index": header x table mutation of a valid index
+	Enum    []int    `json:"enum,omitempty"`  // form "enum": indexes into the enumeration (batch journal of TestEnum)
+	Src     string   `json:"src,omitempty"`   // source kind handed to the entry point (default guard)
+	Drain   string   `json:"drain,omitempty"` // catar decoders: what the caller does with a payload reader (none/part/all)
 }
 
 // input materialises the bytes and what is known about them.
@@ -48,6 +50,12 @@ func (c Case) input() ([]byte, known, error) {
 		return b, k, nil
 	case "raw":
 		return c.Raw, known{}, nil
+	case "index":
+		if c.Idx == nil || (c.Target != "index" && c.Target != "indexput") {
+			return nil, known{}, fmt.Errorf("form index needs idx and an index target")
+		}
+		b, k, _ := c.Idx.build()
+		return b, k, nil
 	case "fixture", "trunc", "mut":
 		fm, err := fixtures()
 		if err != nil {
@@ -179,6 +187,10 @@ func archiveShape(t *rapid.T) []string {
 func genCase(t *rapid.T) Case {
 	c := Case{Form: "elems"}
 	c.Target = rapid.SampledFrom(allTargets).Draw(t, "target")
+	if (c.Target == "index" || c.Target == "indexput") && rapid.IntRange(0, 9).Draw(t, "idxform") < 5 {
+		x := genIdxCase(t)
+		return Case{Target: c.Target, Form: "index", Idx: &x}
+	}
 	d := targetDomain(c.Target)
 	var types []string
 	shape := rapid.IntRange(0, 9).Draw(t, "shape")
@@ -279,6 +291,8 @@ func describe(c Case, in []byte, k known, r res) map[string]any {
 		m["fixture"], m["off"], m["val"] = c.Fixture, c.Off, fmt.Sprintf("%#x", c.Val)
 	case "fixture":
 		m["fixture"] = c.Fixture
+	case "index":
+		m["idx"] = fmt.Sprintf("n=%d max=%s min=%s avg=%s flags=%s tab=%s at=%d", c.Idx.N, c.Idx.Max, c.Idx.Min, c.Idx.Avg, c.Idx.Flags, c.Idx.Tab, c.Idx.At)
 	}
 	return m
 }
@@ -387,6 +401,19 @@ func run(c Case) (o hx.Outcome) {
 			o.Class("trunc-in-payload:stream:" + how)
 		}
 	}
+	if c.Form == "index" {
+		_, _, tags := c.Idx.build()
+		hdr := "normal-header-max"
+		if tags["huge-header-max"] {
+			hdr = "huge-header-max"
+		}
+		o.Class("index:tab:"+c.Idx.Tab, "index:max:"+c.Idx.Max)
+		for _, tg := range []string{"decreasing-offset", "oversize-chunk", "equal-offset", "zero-offset", "table-size", "tail", "tail-unchecked-field", "digest-flag-missing"} {
+			if tags[tg] {
+				o.Class("index:"+tg, "index:"+tg+":"+hdr)
+			}
+		}
+	}
 	if c.Form == "elems" {
 		d := targetDomain(c.Target)
 		for _, e := range c.Elems {
@@ -482,7 +509,9 @@ func validOpt(target string, o opt) bool {
 }
 
 var requiredClasses = func() []string {
-	req := []string{"form:elems", "form:trunc", "form:mut", "form:fixture", "body:shorter", "body:longer", "body:natural",
+	req := []string{"form:elems", "form:trunc", "form:mut", "form:fixture", "form:index",
+		"index:decreasing-offset:huge-header-max", "index:decreasing-offset:normal-header-max", "index:oversize-chunk", "index:equal-offset:huge-header-max",
+		"index:zero-offset", "index:table-size", "index:tail", "index:tail-unchecked-field", "body:shorter", "body:longer", "body:natural",
 		"known-malformed", "malformed:size", "malformed:trunc", "outcome:error", "outcome:accepted"}
 	for _, t := range allTargets {
 		req = append(req, "target:"+t)
@@ -522,6 +551,7 @@ var spec = &hx.Spec[Case]{
 		"decoded chunk payload of a CHUNK message is exempt from the bound (4 x its independently decoded size; frames over 64 MiB are not fed to desync)",
 		"size values in the open interval (2^30, 2^48+64) are never handed to the code under test (guard reader / prescan of offsets 0 and 48)",
 		"malformed-must-fail is judged only where the generator broke a size field or truncated; fixed-size elements must carry their fixed size",
+		"index verdicts: decreasing or zero offsets, a chunk larger than the header maximum, items that are not 40 bytes and broken tail zero-fill/marker are malformed whatever the header says; equal offsets (zero-size chunk) and the tail's index-offset/size fields carry no demand",
 		"UnTar writes into a no-op FilesystemWriter that drains file bodies like LocalFS does (drain mode all; part/none model a writer that stops early)",
 		"*bytes.Reader, *os.File and *bufio.Reader are handed over unguarded, only after a guarded run of the same input withheld nothing; the outcome (error or not, number of results) must equal that of the guarded stream reader",
 	},
@@ -635,7 +665,7 @@ func TestEnum(t *testing.T) {
 	}
 	hx.AddNote("enumerated_cases", len(plain)+len(journalled))
 	if failed == 0 {
-		hx.Exhaustive("every element/message type x every hostile size x {natural, empty, longer} body for every entry point; every truncation of the single-file archives and every truncation in/around a payload of the catar fixtures x every source kind x every payload consumption; every truncation and every single-field mutation (size x hostile sizes, type x known identifiers, body fields x hostile values) of index.caibx, *.catar and the recorded protocol session, for every applicable entry point")
+		hx.Exhaustive("index header maximum {ok,0,1,2^32,2^63,MaxUint64-11..-8,-1,MaxUint64} x every table mutation x position {first,middle,last} x {2,5} chunks for IndexFromReader and the PUT handler; every element/message type x every hostile size x {natural, empty, longer} body for every entry point; every truncation of the single-file archives and every truncation in/around a payload of the catar fixtures x every source kind x every payload consumption; every truncation and every single-field mutation (size x hostile sizes, type x known identifiers, body fields x hostile values) of index.caibx, *.catar and the recorded protocol session, for every applicable entry point")
 	}
 }
 
@@ -702,7 +732,7 @@ func enumCases() ([]Case, error) {
 	if err != nil {
 		return nil, err
 	}
-	out := gridCases()
+	out := append(gridCases(), idxEnumCases()...)
 	do := func(c Case) { out = append(out, c) }
 	bodyVals := []uint64{0, 1, 1 << 21, sizeHuge48, 1 << 63, ^uint64(0)}
 	ti := 0
